@@ -1,6 +1,7 @@
 package main
 
 import (
+	"strconv"
 	"fmt"
 	"go/ast"
 	"regexp"
@@ -194,6 +195,15 @@ func (e *Engine) VerifyFunction(fn *ssa.Function, con *Contract) (v *FV) {
 		}
 		v.assume("true", t)
 	}
+	for _, a := range con.Apply {
+		aenv := v.exprEnv(fr, st, "apply in "+con.Key)
+		t, err := v.applyLemma(aenv, a.Text)
+		if err != nil {
+			v.specError(a, err)
+			continue
+		}
+		v.assume("true", t)
+	}
 	for _, g := range con.GhostEntry {
 		genv := v.exprEnv(fr, st, "ghost_entry of "+con.Key)
 		genv.old = fr.oldSnap
@@ -351,6 +361,7 @@ func (e *Engine) VerifyLemma(ax *Axiom) *FV {
 		mode = ModeBV
 	}
 	v := e.newFV(nil, nil, mode)
+	v.con = &Contract{Uses: ax.Uses, Opaque2: ax.Opaque}
 	v.curFnKey = "lemma." + ax.Name
 	defer func() {
 		if r := recover(); r != nil {
@@ -372,12 +383,19 @@ func (e *Engine) VerifyLemma(ax *Axiom) *FV {
 	// an arbitrary heap, so that (loop-free) Go functions can be used in the statement
 	env := &ExprEnv{v: v, vars: map[string]TV{}, pkg: v.pkgOf(ax.Pkg), what: "lemma " + ax.Name,
 		snap: &Snapshot{ep: v.newEpoch(0), over: map[string]Term{}}}
+	v.noTriggers = true
 	t, err := env.EvalBool(ax.Text)
+	v.noTriggers = false
 	if err != nil {
 		v.specError(Clause{File: ax.File, Line: ax.Line, Text: ax.Text}, err)
 		return v
 	}
 	v.oblige("lemma", ax.Name, fmt.Sprintf("%s:%d", shortFile(ax.File), ax.Line), ax.Text, "true", t)
+	if len(v.axioms) > 0 {
+		// vacuity guard: the axioms and lemmas this proof rests on must not be contradictory
+		v.obls = append(v.obls, &Obligation{Name: v.curFnKey + "#smoke", Kind: "smoke", Fn: v.curFnKey,
+			Text: "the hypotheses of the lemma are satisfiable (vacuity guard)", Reach: "true", Goal: "false", ScriptLen: len(v.script), Expect: "sat", Lemma: true})
+	}
 	return v
 }
 
@@ -389,12 +407,29 @@ func (v *FV) buildScript(o *Obligation) string {
 		b.WriteByte('\n')
 	}
 	var body strings.Builder
+	var live map[string]bool
+	if v.con != nil && v.con.Paths {
+		live = reachAncestors(v.script[:o.ScriptLen], o.Reach)
+	}
 	for _, l := range v.script[:o.ScriptLen] {
+		if live != nil && strings.HasPrefix(l, "(assert (=> ") {
+			g := l[len("(assert (=> "):]
+			if k := strings.IndexAny(g, " )"); k > 0 {
+				g = g[:k]
+			}
+			if reachName.MatchString(g) && !live[g] {
+				continue // a fact about a path this obligation is not on (path mode)
+			}
+		}
 		body.WriteString(l)
 		body.WriteByte('\n')
 	}
 	fmt.Fprintf(&body, "(assert %s)\n(assert (not %s))\n", o.Reach, o.Goal)
-	for _, ax := range v.relevantAxioms(body.String()) {
+	axs := v.relevantAxioms(body.String())
+	if o.Lemma {
+		axs = v.axioms
+	}
+	for _, ax := range axs {
 		fmt.Fprintf(&b, "(assert %s) ; axiom %s\n", ax.term, ax.name)
 	}
 	b.WriteString(body.String())
@@ -714,4 +749,147 @@ func (v *FV) loopFrameTerm(fr *Frame, st *State, arrs []string, allowed map[stri
 		return "true"
 	}
 	return "(and " + strings.Join(parts, " ") + ")"
+}
+
+
+// applyLemma instantiates a lemma (proved as its own obligation) or an axiom with explicit
+// arguments: its leading universal binders are replaced by the given terms.
+func (v *FV) applyLemma(env *ExprEnv, text string) (t Term, err error) {
+	defer func() {
+		if r := recover(); r != nil {
+			if ee, ok := r.(*exprError); ok {
+				err = fmt.Errorf("%s: %s", text, ee.msg)
+				return
+			}
+			panic(r)
+		}
+	}()
+	ex, perr := parseContractExpr(text)
+	if perr != nil {
+		return "", perr
+	}
+	call, ok := ex.(*ast.CallExpr)
+	if !ok {
+		return "", fmt.Errorf("apply needs lemma(args...)")
+	}
+	id, ok := call.Fun.(*ast.Ident)
+	if !ok {
+		return "", fmt.Errorf("apply needs a lemma name")
+	}
+	var ax *Axiom
+	for _, a := range v.eng.db.Axioms {
+		if a.Name == id.Name {
+			ax = a
+		}
+	}
+	if ax == nil {
+		return "", fmt.Errorf("unknown lemma %s", id.Name)
+	}
+	if (ax.Arith == "math") != (v.mode == ModeMath) && ax.Arith != "any" {
+		return "", fmt.Errorf("lemma %s is stated in the other integer mode", ax.Name)
+	}
+	var args []TV
+	for _, a := range call.Args {
+		args = append(args, env.eval(a))
+	}
+	body, perr := parseContractExpr(ax.Text)
+	if perr != nil {
+		return "", perr
+	}
+	lenv := &ExprEnv{v: v, vars: map[string]TV{}, pkg: v.pkgOf(ax.Pkg), snap: env.snap, what: "apply " + ax.Name}
+	if lenv.pkg == nil {
+		lenv.pkg = env.pkg
+	}
+	ai := 0
+	bind := func(name *ast.Ident, tyLit ast.Expr) {
+		if ai >= len(args) {
+			fail("too few arguments for lemma %s", ax.Name)
+		}
+		lit, ok := tyLit.(*ast.BasicLit)
+		if !ok {
+			fail("lemma %s: binder type must be a string literal", ax.Name)
+		}
+		ts, _ := strconv.Unquote(lit.Value)
+		bty := v.parseType(ts, lenv.pkg)
+		if bty == nil {
+			fail("unknown type %s", ts)
+		}
+		bs := v.sortOf(bty)
+		if _, isMap := bty.(*types.Map); isMap {
+			bs = v.ghostSort(bty)
+		}
+		x := env.coerce(args[ai], bty, bs)
+		if x.Sort != bs {
+			fail("argument %d of %s has sort %s, want %s", ai+1, ax.Name, x.Sort, bs)
+		}
+		lenv.vars[name.Name] = TV{T: x.T, Ty: bty, Sort: bs}
+		ai++
+	}
+	for {
+		c, ok := body.(*ast.CallExpr)
+		if !ok {
+			break
+		}
+		f, ok := c.Fun.(*ast.Ident)
+		if !ok {
+			break
+		}
+		if f.Name == "all" && len(c.Args) == 3 {
+			bind(c.Args[0].(*ast.Ident), c.Args[1])
+			body = c.Args[2]
+			continue
+		}
+		if f.Name == "allof" {
+			for i := 0; i+1 < len(c.Args); i += 2 {
+				bind(c.Args[i].(*ast.Ident), c.Args[i+1])
+			}
+			body = c.Args[len(c.Args)-1]
+			continue
+		}
+		if f.Name == "trigger" && len(c.Args) >= 2 {
+			body = c.Args[len(c.Args)-1]
+			continue
+		}
+		break
+	}
+	if ai != len(args) {
+		fail("lemma %s takes %d arguments", ax.Name, ai)
+	}
+	if ax.Lemma {
+		v.trusted["lemma "+ax.Name+" (proved as its own obligation, applied explicitly)"] = true
+	}
+	r := lenv.coerce(lenv.eval(body), nil, "")
+	return r.T, nil
+}
+
+
+var reachName = regexp.MustCompile(`^f\d+_(c|nc|R)_\d+!\d+$`)
+var reachTok = regexp.MustCompile(`f\d+_(c|nc|R)_\d+!\d+`)
+
+// reachAncestors: the reach conditions that the given reach condition is built from.
+func reachAncestors(script []string, reach Term) map[string]bool {
+	defs := map[string][]string{}
+	for _, l := range script {
+		if strings.HasPrefix(l, "(define-fun f") {
+			f := strings.Fields(l)
+			if len(f) > 1 && reachName.MatchString(f[1]) {
+				defs[f[1]] = reachTok.FindAllString(l[len("(define-fun ")+len(f[1]):], -1)
+			}
+		}
+	}
+	live := map[string]bool{}
+	var add func(n string)
+	add = func(n string) {
+		if live[n] {
+			return
+		}
+		live[n] = true
+		for _, d := range defs[n] {
+			add(d)
+		}
+	}
+	for _, n := range reachTok.FindAllString(reach, -1) {
+		add(n)
+	}
+	return live
 }
